@@ -30,7 +30,7 @@ RULE = (
 ASSUMPTIONS = [
     "rounding-level tolerance on field values: 1e-9 |m_i| + 1e-6 (m_i - min m_f)",
     "monotonicity in time is asserted in the conditional form that is a theorem of the documented scheme: at the first step at which a node j>=1 rises, node 0 must have risen on that step (DESIGN.md Appendix A.3); on uniform/quadratic/geometric grids this covers every step after the first",
-    "relaxation is asserted as the supersolution bound of Appendix A.4 built from the lowest eigenpair of the harness's own constant-coefficient operator and the minimum scaled diffusivity over [m_f, m_i]",
+    "relaxation is asserted as the supersolution bound of Appendix A.4 built from the lowest eigenpair of the harness's own constant-coefficient operator and the minimum scaled diffusivity over [m_f, m_i]; for a time-varying schedule the same bound is applied from the level at which the schedule reaches its final value (from there on the run is a constant-drawdown run started inside [min m_f, m_i])",
 ]
 LEVEL_TEXT = (
     "Each oracle (bounds, spatial monotonicity, conditional time monotonicity, relaxation bound) is a theorem "
@@ -59,16 +59,38 @@ def a_min_scaled(r: flowcase.Run):
     return float(np.min(r.alpha_scaled(pts)))
 
 
-def relaxation_bound(r: flowcase.Run):
-    """Supersolution bound on max_j (m[N,j] - m_f) under constant drawdown (Appendix A.4)."""
+def final_level(r: flowcase.Run):
+    """(k0, m_last): the frac-face value used by the last step and the first level from which every remaining step
+    uses it (step i -> i+1 takes the schedule's entry i, so the last entry of a schedule is never applied)."""
+    mf = np.asarray(r.m_f, float)
+    if len(mf) < 2:
+        return 0, float(mf[0])
+    used = mf[:-1]
+    m_last = float(used[-1])
+    differs = np.flatnonzero(used != m_last)
+    k0 = int(differs[-1]) + 1 if differs.size else 0
+    return k0, m_last
+
+
+def relaxation_bound(r: flowcase.Run, tail=False):
+    """Supersolution bound on max_j |m[N,j] - m_f| under constant drawdown (Appendix A.4).
+
+    tail=True: the same bound for a schedule that stays at its final value from level k0 on - from there the run is a
+    constant-drawdown run started from a profile inside [min m_f, m_i], so |m - m_last| <= (D / phi_min) phi
+    prod_{n >= k0} 1/(1 + lambda a_min dt_n) with D = m_i - min m_f (a-priori, independent of the stored field)."""
     n = r.case["nx"]
     theta = math.pi / (2 * n + 1)
     lam = (2 - 2 * math.cos(theta)) * r.inv_h2
     amin = a_min_scaled(r)
     dts = np.diff(r.time)
+    if tail:
+        k0, _ = final_level(r)
+        dts = dts[k0:]
+        d = r.m_i - float(np.min(r.m_f))
+    else:
+        d = r.m_i - float(r.m_f[0])
     log_decay = -float(np.sum(np.log1p(lam * amin * dts)))
     phi_min, phi_max = math.sin(theta), math.sin(n * theta)
-    d = r.m_i - float(r.m_f[0])
     if log_decay < -700:
         return 0.0
     return d / phi_min * phi_max * math.exp(log_decay)
@@ -131,6 +153,13 @@ def check_case(case) -> Result:
         gap = float(np.max(np.abs(m[-1] - r.m_f[0])))
         res.check("C01/relaxes-to-frac-face-value", gap, rb + tol, f"after {nt - 1} steps to t={t[-1] - t[0]!r} the field is {gap!r} away from m_f (supersolution bound {rb!r}, d={d!r}, p_f/p_i={r.p_f / r.p_i!r}, nx={nx});")
         res.labels["relaxed"] = bool(rb < 1e-3 * d)
+    if not const and nt > 2:
+        # ---- 4'. a schedule that stays at its final value relaxes to that value (same theorem from level k0 on) ----
+        k0, m_last = final_level(r)
+        rb_t = relaxation_bound(r, tail=True)
+        gap = float(np.max(np.abs(m[-1] - m_last)))
+        res.check("C01/relaxes-to-frac-face-value", gap, rb_t + tol, f"schedule constant from level {k0} of {nt - 1}: after the remaining steps (t={t[-1] - t[k0]!r}) the field is {gap!r} away from the final frac-face value {m_last!r} (supersolution bound {rb_t!r}, d={d!r}, nx={nx});")
+        res.labels["schedule_tail_relaxed"] = bool(rb_t < 1e-3 * d)
     distinct_levels = 1 if r.schedule is None else len(np.unique(r.schedule))
     res.nontrivial = bool(nt >= 3 and d > 0 and (r.p_f / r.p_i > 0.9 or big_ratio or distinct_levels >= 2 or (rb is not None and rb < 1e-3 * d)))
     res.labels["mesh_ratio_gt_100"] = big_ratio
